@@ -110,3 +110,22 @@ package hash
 //@   requires h.nodes != nil
 //@   ensures !inDom(h.nodes, nodeRepr) && forall(k.(string), implies(k != nodeRepr, inDom(h.nodes, k) == old(inDom(h.nodes, k))))
 //@   modifies mapof(h.nodes)
+
+// Minimal disruption and order independence, stated on the abstract ring (a set of virtual-node hashes; successor = least
+// element >= h, wrapping to the least element): the owner of h depends only on the set, adding virtual nodes moves h only
+// onto one of the added ones, removing virtual nodes moves h only if its owner was removed.
+//@ spec succOf(S map[int]bool, h int, r int) bool = S[r] && ((r >= h && forall(x.(int), implies(S[x] && x >= h, x >= r))) || (forall(x.(int), implies(S[x], x < h)) && forall(x.(int), implies(S[x], x >= r))))
+//@ lemma succ_unique(S map[int]bool, h int, r1 int, r2 int)
+//@   property C15
+//@   hyp succOf(S, h, r1) && succOf(S, h, r2)
+//@   goal r1 == r2
+//@ lemma succ_add(S map[int]bool, X map[int]bool, T map[int]bool, h int, r int, r2 int)
+//@   property C15
+//@   hyp forall(x.(int), T[x] == (S[x] || X[x]))
+//@   hyp succOf(S, h, r) && succOf(T, h, r2)
+//@   goal r2 == r || X[r2]
+//@ lemma succ_remove(S map[int]bool, X map[int]bool, T map[int]bool, h int, r int, r2 int)
+//@   property C15
+//@   hyp forall(x.(int), T[x] == (S[x] && !X[x]))
+//@   hyp succOf(S, h, r) && succOf(T, h, r2) && !X[r]
+//@   goal r2 == r
